@@ -6,7 +6,7 @@ import zlib
 EOF_BLOCK = bytes.fromhex("1f8b08040000000000ff0600424302001b0003000000000000000000")
 
 
-def _block(data, level=6):
+def _block(data, level=6, header=None):
     assert len(data) <= 65280
     c = zlib.compressobj(level, zlib.DEFLATED, -15)
     comp = c.compress(data) + c.flush()
@@ -14,12 +14,14 @@ def _block(data, level=6):
         c = zlib.compressobj(0, zlib.DEFLATED, -15)
         comp = c.compress(data) + c.flush()
     bsize = len(comp) + 25
-    head = struct.pack("<BBBBIBBHBBHH", 0x1F, 0x8B, 8, 4, 0, 0, 0xFF, 6, 0x42, 0x43, 2, bsize)
+    # MTIME, XFL and OS are free in the BGZF specification (htslib writes 0, 0, 255; other writers do not)
+    mtime, xfl, os_ = header or (0, 0, 0xFF)
+    head = struct.pack("<BBBBIBBHBBHH", 0x1F, 0x8B, 8, 4, mtime, xfl, os_, 6, 0x42, 0x43, 2, bsize)
     tail = struct.pack("<II", zlib.crc32(data) & 0xFFFFFFFF, len(data) & 0xFFFFFFFF)
     return head + comp + tail
 
 
-def write_bgzf(path, data, cuts=(), empty_block_before_eof=False):
+def write_bgzf(path, data, cuts=(), empty_block_before_eof=False, header=None):
     """data: bytes. cuts: uncompressed positions at which a new block starts (any subset of 1..len-1).
     Blocks longer than 65280 bytes are split further. Returns the list of (uncompressed start, compressed start)
     of the data blocks."""
@@ -36,9 +38,9 @@ def write_bgzf(path, data, cuts=(), empty_block_before_eof=False):
     with open(path, "wb") as f:
         for a, b in pieces:
             table.append((a, f.tell()))
-            f.write(_block(data[a:b]))
+            f.write(_block(data[a:b], header=tuple(header) if header else None))
         if empty_block_before_eof:
-            f.write(_block(b""))
+            f.write(_block(b"", header=tuple(header) if header else None))
         f.write(EOF_BLOCK)
     return table
 
